@@ -51,21 +51,34 @@ def iface_of(F, cls):
 
 
 def wired_nodes(F, S=None):
+    for c in F.rec:
+        _NODE_CACHE[c] = F.derives_from(c, 'ipr::Node')
     """One fully constructed abstract object per concrete node class the factories (or the process-wide
     constants) can produce: list of (class, interface, state, object term, provenance)."""
     S = S or Sym(F, opaque=contracts.default_opaque(F), max_depth=64)
     seen = {}
 
+    def shape(st, t, depth=0):
+        """Which links of the object are unset: two objects of a class with different unset links are printed
+        along different paths, so each shape is kept."""
+        if not (isinstance(t, tuple) and t and t[0] == 'obj' and t[1] in st.heap) or depth > 3:
+            return 'null' if t == NULL else ''
+        o = st.heap[t[1]]
+        if depth and F.derives_from(o.cls, 'ipr::Node'):
+            return ''
+        return '{' + ','.join(f'{n}:{shape(st, v, depth + 1)}' for n, v in sorted(o.fields.items()) if shape(st, v, depth + 1)) + '}'
+
     def harvest(st, prov):
         for oid, o in st.heap.items():
-            if o.cls in seen:
-                continue
             r = F.rec.get(o.cls)
             if r is None or r['abstract'] or not F.derives_from(o.cls, 'ipr::Node'):
                 continue
             if o.origin and o.origin[0] == 'copy':
                 continue
-            seen[o.cls] = (st, ('obj', oid), prov)
+            key = (o.cls, shape(st, ('obj', oid)))
+            if key in seen:
+                continue
+            seen[key] = (st, ('obj', oid), prov)
     for f in sorted(wire.all_factories(F), key=lambda f: f['id']):
         try:
             outs = S.run(f['id'])
@@ -93,26 +106,48 @@ def wired_nodes(F, S=None):
         if len(res) == 1 and res[0][1] and res[0][1][0] == 'obj':
             harvest(res[0][0], 'constant ' + g['q'])
     out = []
-    for cls, (st, obj, prov) in sorted(seen.items()):
-        out.append((cls, iface_of(F, cls), st, obj, prov))
+    nth = {}
+    for (cls, _shape), (st, obj, prov) in sorted(seen.items()):
+        k = nth[cls] = nth.get(cls, 0) + 1
+        out.append((cls if k == 1 else f'{cls}', iface_of(F, cls), st, obj, prov + ('' if k == 1 else f' (variant {k})')))
     return out
+
+
+def variant_tag(prov):
+    return '#' + prov.rsplit('(variant ', 1)[1].rstrip(')') if '(variant ' in prov else ''
 
 
 def completed(st, obj):
     """A copy of the state in which every unset link (util::ref / Optional member holding null) of the object
     designates an arbitrary operand: the fully built variant of a node the factory leaves to be filled in."""
     s2 = st.fork()
-    changed = False
-    o = s2.heap.get(obj[1])
-    if o is None:
+    changed = [False]
+    if s2.heap.get(obj[1]) is None:
         return None
-    for name, v in list(o.fields.items()):
-        if isinstance(v, tuple) and v and v[0] == 'obj' and v[1] in s2.heap:
-            w = s2.heap[v[1]]
-            if (w.cls.startswith('ipr::util::ref<') or w.cls.startswith('ipr::Optional<')) and w.fields.get('ptr') == NULL:
-                w.fields['ptr'] = ('addr', ('param', 900 + len(name)))
-                changed = True
-    return s2 if changed else None
+
+    def fill(t, path, depth):
+        o = s2.heap.get(t[1])
+        if o is None or depth > 3:
+            return
+        if depth and F_derives(o.cls):
+            return
+        for name, v in list(o.fields.items()):
+            if isinstance(v, tuple) and v and v[0] == 'obj' and v[1] in s2.heap:
+                w = s2.heap[v[1]]
+                if (w.cls.startswith('ipr::util::ref<') or w.cls.startswith('ipr::Optional<')) and w.fields.get('ptr') == NULL:
+                    w.fields['ptr'] = ('addr', ('param', 900 + 20 * depth + len(name)))
+                    changed[0] = True
+                else:
+                    fill(v, path + (name,), depth + 1)
+    fill(obj, (), 0)
+    return s2 if changed[0] else None
+
+
+_NODE_CACHE = {}
+
+
+def F_derives(cls):
+    return _NODE_CACHE.get(cls, False)
 
 
 def run_entry(F, S, entry_fn, st, obj, semicolon=0):
